@@ -22,6 +22,7 @@ type Phase struct {
 	MemMB     int    `json:"mem_mb"`     // RLIMIT_AS for the worker (0 = none; ignored for race builds)
 	Exhaust   bool   `json:"exhaustive"` // the phase enumerates a finite space completely
 	NeedsAnko bool   `json:"needs_anko"` // orchestrator builds the anko CLI and passes VERIF_ANKO_BIN
+	Builder   string `json:"builder"`    // "" = the regular worker; "c13sched" = worker built against a rewritten scratch copy of the repo
 }
 
 // Plan is what `vworker -plan` prints.
